@@ -93,6 +93,72 @@ type world struct {
 	// ledger for the implementation-level oracle
 	led               ledger
 	lastCommitMembers []member
+	pending           []pendingCommit // CommitEvents already posted: their vote sets must stay what they were at emission
+	nLate             int
+}
+
+// pendingCommit is a CommitEvent captured at emission with a deep copy of its vote sets. Server.commit packs the event
+// LATER on another goroutine, so the event must be an immutable snapshot: the harness keeps driving the Voter and compares.
+type pendingCommit struct {
+	ev       ucon.CommitEvent
+	snap     string
+	okAtOnce bool
+	merged   bool
+}
+
+func voteSetDigest(m ucon.VotesInfoForBlockHash) string {
+	var l []string
+	for a, v := range m {
+		pr := v.Proof
+		if len(pr) > 4 {
+			pr = pr[:4]
+		}
+		l = append(l, fmt.Sprintf("%d:%d/%d/%x", addrID(a), v.Votes, v.VoterIdx, pr))
+	}
+	sort.Strings(l)
+	return strings.Join(l, ",")
+}
+
+func commitDigest(ev ucon.CommitEvent) string {
+	return "pc[" + voteSetDigest(ev.ChamberPrecommits) + "] hpc[" + voteSetDigest(ev.HousePrecommits) + "] certs[" + voteSetDigest(ev.ChamberCerts) + "]"
+}
+
+// checkPending: no later delivery may change the vote sets of an event that was already posted.
+func (w *world) checkPending() {
+	for k := range w.pending {
+		p := &w.pending[k]
+		if p.snap == "" {
+			continue
+		}
+		if now := commitDigest(p.ev); now != p.snap {
+			w.led.fail(fmt.Sprintf("commit_event_snapshot: the vote sets of the CommitEvent of block %d in (%d,%d) changed after the event was posted (it is packed later by Server.commit): at emission %s, now %s",
+				w.blockID(p.ev.Block), u64(p.ev.Round), p.ev.RoundIndex, p.snap, now), "")
+			p.snap = ""
+		}
+	}
+}
+
+// finish: pack and verify the captured CommitEvents only now, after everything else was delivered (what the asynchronous
+// Server.commit may see), on the real PackVotes + real verifier.
+func (w *world) finish() {
+	if w.crashed {
+		return
+	}
+	w.checkPending()
+	if w.e2e == nil {
+		return
+	}
+	for _, p := range w.pending {
+		if !p.okAtOnce || w.e2e.mergedBlock[p.ev.Block.Hash()] {
+			continue // (a merged header re-uses the vote objects: the real order packs before any merge)
+		}
+		w.nLate++
+		w.e2e.verify(p.ev)
+		if ok, what := w.e2e.lastVerdict(); !ok {
+			w.led.fail(fmt.Sprintf("commit_verifies: the CommitEvent of block %d in (%d,%d) verified when packed at once, but packed after the further deliveries: %s",
+				w.blockID(p.ev.Block), u64(p.ev.Round), p.ev.RoundIndex, what), "")
+		}
+	}
 }
 
 func kindOf(k uint64) params.ValidatorKind {
@@ -330,7 +396,7 @@ func (w *world) apply(line string) (string, error) {
 		}
 		w.cur = curMsg{T: a[13], kind: a[12], stakeErr: a[11] == 0, cred: a[14]}
 		m := ucon.VerifC03Msg{VerifVoteMsg: ucon.VerifVoteMsg{Kind: vtName(a[0]), Round: new(big.Int).SetUint64(a[1]), RoundIndex: uint32(a[2]),
-			Hash: w.hashOf(a[3]), Priority: w.hashOf(a[4]), Signer: keys[a[5]], Votes: uint32(a[6]), Status: int(a[7]), NilVote: a[8] != 0}, BadSig: a[9] == 0}
+			Hash: w.hashOf(a[3]), Priority: w.hashOf(a[4]), Signer: keys[a[5]], Votes: uint32(a[6]), Status: int(a[7]), NilVote: a[8] != 0}, BadSig: a[9] == 0 || (a[9] != 1 && (w.e2e == nil || !w.e2e.bls))}
 		if a[10] == 0 {
 			m.ClaimedBy = keys[(a[5]+1)%nKeys]
 		}
@@ -380,13 +446,18 @@ func (w *world) apply(line string) (string, error) {
 }
 
 func (w *world) verifyCommits(st ucon.VerifC03Step) {
-	if w.e2e == nil {
-		return
-	}
+	w.checkPending()
 	for _, ev := range st.Commits {
-		w.e2e.verify(ev)
+		p := pendingCommit{ev: ev, snap: commitDigest(ev), okAtOnce: true}
+		if w.e2e != nil {
+			w.e2e.verify(ev)
+			p.okAtOnce, _ = w.e2e.lastVerdict()
+		}
+		w.pending = append(w.pending, p)
 	}
-	w.e2e.afterDelivery(w, st)
+	if w.e2e != nil {
+		w.e2e.afterDelivery(w, st)
+	}
 }
 
 func optHash(w *world, h *common.Hash) string {
